@@ -1,8 +1,8 @@
 (** C08.Proofs4 — the generated rules table against the per-version facts; the assembled
     theorem; the known deviation classes (soundness inside the class, witnesses). *)
 From Base Require Import Prelude Sx Json Rules.
-From Gen Require Import RoomRules.
-From C08 Require Import Types Model Spec Proofs1 Proofs2 Proofs3.
+From Gen Require Import RoomRules TypeAliases.
+From C08 Require Import Types Model Spec Known Proofs1 Proofs2 Proofs3.
 From Coq Require Import ZifyBool ZifyN.
 
 (** The obligation that re-checks when ruma's AuthorizationRules constants change. *)
@@ -36,7 +36,7 @@ Variable sn_ok : str -> bool.
 Variable verify : str -> str -> str -> obj -> bool.
 
 Theorem auth_eq_spec_versions v R ev st :
-  rules_of v = Some R -> wf_inputs v ev -> known_deviation v ev st = false ->
+  rules_of v = Some R -> wf_inputs v ev st -> known_deviation v ev st = false ->
   auth_check uid_ok sn_ok verify (authorization R) ev st = spec_auth uid_ok sn_ok verify v ev st.
 Proof. intros H. apply auth_eq_spec. now apply rules_table. Qed.
 
@@ -114,7 +114,7 @@ Definition w_pl : event :=
 
 Lemma pl_strict_witness :
   let ok := fun _ : str => true in let vf := fun (_ _ _ : str) (_ : obj) => false in
-  pl_strict 9 w_pl = true /\ wf_inputs 9 w_pl /\
+  pl_strict 9 w_pl = true /\ wf_inputs 9 w_pl (w_state []) /\
   spec_auth ok ok vf 9 w_pl (w_state []) = true /\
   auth_check ok ok vf (authorization rules_v9) w_pl (w_state []) = false.
 Proof. vm_compute. repeat split; reflexivity. Qed.
@@ -142,3 +142,26 @@ Lemma serde_shapes_witness :
   spec_auth ok ok vf 9 w_invite st = false /\
   auth_check ok ok vf (authorization rules_v9) w_invite st = true.
 Proof. vm_compute. repeat split; reflexivity. Qed.
+
+(** For every alias of the generated table: with [events: {alias: 50}] a joined user of level
+    49 may send an event of the standard type by the rules ([events_default] applies); ruma
+    reads the key as the standard type and rejects. *)
+Definition w_alias_pl (alias : str) : event :=
+  {| e_id := s!"$pl"; e_room := s!"!room:s1"; e_sender := s!"@alice:s1"; e_type := t_power;
+     e_skey := Some [];
+     e_content := [(s!"events", JObj [(alias, JInt 50)]); (s!"users", JObj [(s!"@alice:s1", JInt 49)])];
+     e_prev := []; e_auth := []; e_redacts := None |}.
+Definition w_alias_msg (ty : str) : event :=
+  {| e_id := s!"$msg"; e_room := s!"!room:s1"; e_sender := s!"@alice:s1"; e_type := ty;
+     e_skey := None; e_content := []; e_prev := [s!"$m"]; e_auth := [s!"$create"]; e_redacts := None |}.
+
+Definition alias_witness_ok (at_ : str * str) : bool :=
+  let ok := fun _ : str => true in let vf := fun (_ _ _ : str) (_ : obj) => false in
+  let st := w_state [(k_power, w_alias_pl (fst at_))] in
+  let ev := w_alias_msg (snd at_) in
+  type_alias ev st && wf_inputsb 9 ev st
+  && spec_auth ok ok vf 9 ev st
+  && negb (auth_check ok ok vf (authorization rules_v9) ev st).
+
+Lemma type_alias_witness : forallb alias_witness_ok type_aliases = true.
+Proof. vm_compute. reflexivity. Qed.
